@@ -1,6 +1,9 @@
 package packet
 
 import (
+	"maps"
+	"slices"
+
 	protoutil "go.minekube.com/gate/pkg/edition/java/proto/util"
 	"go.minekube.com/gate/pkg/gate/proto"
 	"io"
@@ -13,9 +16,10 @@ type CustomReportDetails struct {
 func (p *CustomReportDetails) Encode(c *proto.PacketContext, wr io.Writer) error {
 	w := protoutil.PanicWriter(wr)
 	w.VarInt(len(p.Details))
-	for key, value := range p.Details {
+	// sorted, so that the same packet always encodes to the same bytes
+	for _, key := range slices.Sorted(maps.Keys(p.Details)) {
 		w.String(key)
-		w.String(value)
+		w.String(p.Details[key])
 	}
 	return nil
 }
